@@ -717,6 +717,18 @@ def suite_C07(g, tier):
         p.op("Scalar.Bytes", r="s3", o=["b0"])
         p.op("Point.ScalarBaseMult", r="p0", a=["s3"])
         p.op("Point.Bytes", r="p0", o=["b1"])
+    # Equal must see every bit of the difference, in the plain and in the Montgomery domain
+    bits_ = list(range(253))
+    for i in range(0, len(bits_), 16):
+        p = g.new("C07 Equal single-bit differences")
+        a = scalar_val(rng)
+        for b in bits_[i:i + 16]:
+            load_scalar(p, "s0", a, rng, "canon")
+            load_scalar(p, "s1", (a + (1 << b)) % L, rng, "canon")
+            p.op("Scalar.Equal", r="s0", a=["s1"])
+            load_scalar(p, "s1", (a + (1 << b) * RINV) % L, rng, "canon")     # one bit in the Montgomery representation
+            p.op("Scalar.Equal", r="s0", a=["s1"])
+            p.op("Scalar.Equal", r="s1", a=["s0"])
     p = g.new("C07 zero value")
     p.op("NewScalar", o=["s0"])
     p.op("Scalar.Bytes", r="s0", o=["b0"])
@@ -1006,6 +1018,29 @@ def suite_C10(g, tier):
                 p.op("Elem.Equal", r="e0", a=["e1"])
                 load_elem(p, "e1", (v + rng.choice([1, P - 1, 2**204, 2**255 - 19 - 2**204])) % P, rng)
                 p.op("Elem.Equal", r="e0", a=["e1"])
+    # Equal must see every bit: pairs differing in exactly one bit position, and in the high bits of every limb only
+    bits_ = list(range(255))
+    for i in range(0, len(bits_), 16):
+        p = g.new("C10 Equal single-bit differences")
+        v = field_val(rng) if rng.randrange(2) else rng.choice([0, 1, 5, P - 1])
+        for b in bits_[i:i + 16]:
+            load_elem(p, "e0", v, rng, "bytes")
+            load_elem(p, "e1", (v ^ (1 << b)) % P if (v ^ (1 << b)) < P else (v + (1 << b)) % P, rng, rng.choice(["bytes", "inject"]))
+            p.op("Elem.Equal", r="e0", a=["e1"])
+            p.op("Elem.Equal", r="e1", a=["e0"])
+    for it in range(6 if tier == "quick" else 60):
+        p = g.new("C10 Equal high-bits-of-limbs differences")
+        v = field_val(rng)
+        for k in range(8):
+            dlt = 0
+            for i in range(5):
+                if rng.randrange(2):
+                    lo = rng.choice([32, 33, 40, 48, 50])
+                    dlt |= (rng.randrange(1, 2**(51 - lo)) << lo) << (51 * i)
+            w = (v + dlt) % P
+            load_elem(p, "e0", v, rng, "bytes")
+            load_elem(p, "e1", w, rng, "bytes")
+            p.op("Elem.Equal", r="e0", a=["e1"])
     # the 19 non-canonical encodings and bit 255
     for v in range(19) if tier != "quick" else [0, 1, 9, 18]:
         p = g.new("C10 SetBytes non-canonical p+%d" % v)
@@ -1173,6 +1208,16 @@ def suite_C11(g, tier):
                     if op == "Elem.Mult32":
                         n = rng.randrange(2**32)
                     p.op(op, r=asg[0], a=asg[1:], n=n)
+        # zero scalars at every position of the slices (the slices themselves must come back untouched)
+        for alg in ["Point.MultiScalarMult", "Point.VarTimeMultiScalarMult"]:
+            p = g.new("C11 %s zero scalars inside the slice" % alg)
+            for j in range(3):
+                load_point(p, "p%d" % (1 + j), any_point(rng), rng)
+            p.scalar_canon("s0", 0)
+            load_scalar(p, "s1", scalar_val(rng) or 3, rng)
+            load_scalar(p, "s2", scalar_val(rng) or 5, rng)
+            for ss in (["s0", "s1", "s2"], ["s1", "s0", "s2"], ["s0", "s0", "s1"], ["s1", "s2", "s0"], ["s0"], ["s0", "s1"]):
+                p.op(alg, r=rng.choice(["p0", "p4"]), ss=ss, ps=["p1", "p2", "p3"][:len(ss)])
         # byte-slice inputs: spare capacity, live tails, one slice given to two setters
         p = g.new("C11 byte inputs")
         tail = bytes(rng.randrange(1, 256) for _ in range(64))
@@ -1270,6 +1315,38 @@ def suite_C13(g, tier, only_degenerate=False):
         p.op("Point.SetExtendedCoordinates", r="p2", a=["e0", "e0", "e0", "e0"])
     if only_degenerate:
         return
+    # near-miss quadruples: exactly one of the two relations is off by a single power of two (Z = 1)
+    bits_ = list(range(255))
+    if tier == "quick":
+        bits_ = sorted(rng.sample(bits_, 40))
+    made = []
+    for b in bits_:
+        eps = 1 << b
+        for which in ("curve", "xy"):
+            for _ in range(20):
+                X = rng.randrange(1, P)
+                den = (1 - D * X * X) % P
+                if which == "curve":
+                    Y = sqrt((1 + X * X + eps) * inv(den) % P)          # -X^2 + Y^2 = 1 + d (XY)^2 + eps
+                    if Y is None:
+                        continue
+                    made.append((X, Y, 1, X * Y % P))
+                else:
+                    # T = XY + eps and the curve equation holds:  den Y^2 - 2 d X eps Y - (1 + X^2 + d eps^2) = 0
+                    A_, B_, C_ = den, (-2 * D * X * eps) % P, (-(1 + X * X + D * eps * eps)) % P
+                    disc = sqrt((B_ * B_ - 4 * A_ * C_) % P)
+                    if disc is None:
+                        continue
+                    Y = (-B_ + disc) * inv(2 * A_) % P
+                    made.append((X, Y, 1, (X * Y + eps) % P))
+                break
+    for i in range(0, len(made), 6):
+        p = g.new("C13 near-miss quadruples (one relation off by 2^b)")
+        prep_receiver(p, "p0", rng, rng.choice(RECV_KINDS))
+        for (X, Y, Z, T) in made[i:i + 6]:
+            for r, v in zip(["e0", "e1", "e2", "e3"], [X, Y, Z, T]):
+                load_elem(p, r, v, rng, "bytes")
+            p.op("Point.SetExtendedCoordinates", r="p0", a=["e0", "e1", "e2", "e3"])
     n = 30 if tier == "quick" else 600
     for it in range(n):
         p = g.new("C13 import/export")
